@@ -402,7 +402,7 @@ def rpc_probe_strategy() -> Any:
     """
     from hypothesis import strategies as st
 
-    axes = ("method", "body", "ct", "cenc", "token", "size", "cl")
+    axes = ("method", "body", "body", "body", "ct", "cenc", "token", "token", "size", "cl")  # body / token weigh more
 
     @st.composite
     def build(draw: Any) -> dict[str, Any]:
